@@ -9,6 +9,7 @@ import (
 	"go/ast"
 	"go/token"
 	"go/types"
+	"os"
 	"regexp"
 	"strings"
 
@@ -219,6 +220,7 @@ func runC01Idx(c *Ctx) {
 	// source text of every index and slice expression, keyed by the position of its '[': the construct is named by that
 	// text, so that adding or removing another index expression in the same function does not rename it
 	srcText := map[token.Pos]string{}
+	oldText := map[token.Pos]string{}
 	for _, pkg := range []*packages.Package{p.Main, p.Cmd} {
 		if pkg == nil {
 			continue
@@ -227,14 +229,18 @@ func runC01Idx(c *Ctx) {
 			ast.Inspect(f, func(n ast.Node) bool {
 				switch e := n.(type) {
 				case *ast.IndexExpr:
-					srcText[e.Lbrack] = types.ExprString(e)
+					srcText[e.Lbrack] = canonExpr(pkg, e)
+					oldText[e.Lbrack] = types.ExprString(e)
 				case *ast.SliceExpr:
-					srcText[e.Lbrack] = types.ExprString(e)
+					srcText[e.Lbrack] = canonExpr(pkg, e)
+					oldText[e.Lbrack] = types.ExprString(e)
 				}
 				return true
 			})
 		}
 	}
+	dumpKeys := os.Getenv("VERIFCHK_IDXKEYS") != ""
+	oldOcc := map[string]int{}
 	for _, fn := range p.Funcs {
 		sortCB := isSortCallback(fn)
 		eachInstr(fn, func(b *ssa.BasicBlock, _ int, in ssa.Instruction) {
@@ -260,14 +266,58 @@ func runC01Idx(c *Ctx) {
 			}
 			k := FuncName(fn) + "|" + kind + " of " + typeStr(x.Type())
 			hasText := false
-			if t, ok := srcText[in.Pos()]; ok && in.Pos().IsValid() {
-				k += " " + t
+			if _, ok := srcText[in.Pos()]; ok && in.Pos().IsValid() {
+				// named by where the operands come from (callee results, fields, parameters by type, constants), not by what
+				// the local variables are called: the name survives renaming and the removal of a sibling expression
+				base := canonVal(x, 0)
+				// when the index is a result of a call that also got the container as an argument, the container is named
+				// as that argument: how it was obtained before (a slice of a slice, the second half of a Cut) is immaterial
+				for _, op := range []ssa.Value{idx, low, high} {
+					if op == nil {
+						continue
+					}
+					var call *ssa.Call
+					switch y := op.(type) {
+					case *ssa.Call:
+						call = y
+					case *ssa.Extract:
+						call, _ = y.Tuple.(*ssa.Call)
+					}
+					if call != nil {
+						for j, a := range call.Call.Args {
+							if a == x {
+								base = fmt.Sprintf("arg%d", j)
+							}
+						}
+					}
+				}
+				d := base + "["
+				if kind == "index" {
+					d += canonVal(idx, 0)
+				} else {
+					if low != nil {
+						d += canonVal(low, 0)
+					}
+					d += ":"
+					if high != nil {
+						d += canonVal(high, 0)
+					}
+				}
+				k += " " + d + "]"
 				hasText = true
 			}
 			occ[k]++
 			construct := k
 			if occ[k] > 1 || !hasText {
 				construct = fmt.Sprintf("%s#%d", k, occ[k])
+			}
+			if dumpKeys && hasText {
+				ok := FuncName(fn) + "|" + kind + " of " + typeStr(x.Type()) + " " + oldText[in.Pos()]
+				oldOcc[ok]++
+				if oldOcc[ok] > 1 {
+					ok = fmt.Sprintf("%s#%d", ok, oldOcc[ok])
+				}
+				fmt.Printf("IDXKEY\t%s\t%s\n", ok, construct)
 			}
 			why := ""
 			if kind == "index" {
@@ -439,6 +489,29 @@ func indexSafe(fn *ssa.Function, b *ssa.BasicBlock, x, idx ssa.Value, sortCB boo
 			}
 		}
 	}
+	// the index is below the length of another value whose length was tested to be equal (any loop form)
+	for ifi, outcome := range controllingConds(b) {
+		eq, ok := ifi.Cond.(*ssa.BinOp)
+		if !ok || !((eq.Op == token.EQL && outcome) || (eq.Op == token.NEQ && !outcome)) {
+			continue
+		}
+		for _, pr := range [][2]ssa.Value{{eq.X, eq.Y}, {eq.Y, eq.X}} {
+			if !isLenOf(pr[0], x) {
+				continue
+			}
+			lc, ok := pr[1].(*ssa.Call)
+			if !ok {
+				continue
+			}
+			if bi, ok := lc.Call.Value.(*ssa.Builtin); !ok || bi.Name() != "len" {
+				continue
+			}
+			y := lc.Call.Args[0]
+			if d := idxBelowLen(b, idx, y); d >= 0 && nonNeg(idx, 0, map[ssa.Value]bool{}) {
+				return "index tested to be below the length of a value of the same length (lengths tested to be equal)"
+			}
+		}
+	}
 	// len(x)-c, itself tested to be >= 0
 	if call := lenCallIn(idx); call != nil && sameContainer(call.Call.Args[0], x) {
 		lf := linOf(idx, 0)
@@ -551,6 +624,15 @@ func sliceSafe(fn *ssa.Function, b *ssa.BasicBlock, x, low, high ssa.Value) stri
 	seenPhi := map[*ssa.Phi]bool{}
 	var chk func(v ssa.Value, isHigh bool) (bool, string)
 	chk = func(v ssa.Value, isHigh bool) (bool, string) {
+		// the result of a helper of the module that always returns an offset into its own argument: every return is the byte
+		// index of a range loop over that parameter, its length, or 0
+		if call, ok := v.(*ssa.Call); ok {
+			if g := staticCallee(&call.Call); g != nil && inModule(g) && g.Blocks != nil {
+				if k := offsetIntoParam(g); k >= 0 && k < len(call.Call.Args) && sameContainer(call.Call.Args[k], x) {
+					return true, "result of " + FuncName(g) + ", which only returns offsets into this argument"
+				}
+			}
+		}
 		// the byte index of a range loop over the same string
 		if ex, ok := v.(*ssa.Extract); ok && ex.Index == 1 {
 			if nx, ok := ex.Tuple.(*ssa.Next); ok && nx.IsString {
@@ -919,4 +1001,201 @@ func searchNeedleNonEmpty(call *ssa.Call) bool {
 		}
 	}
 	return false
+}
+
+// canonExpr prints an index or slice expression with every local variable and parameter replaced by its type: the name of
+// the construct then survives the renaming of locals, while fields, functions, constants and literals keep it specific.
+func canonExpr(pkg *packages.Package, e ast.Expr) string {
+	if pkg.TypesInfo == nil {
+		return types.ExprString(e)
+	}
+	repl := map[*ast.Ident]string{}
+	ast.Inspect(e, func(n ast.Node) bool {
+		if se, ok := n.(*ast.SelectorExpr); ok {
+			// only the operand of a selector can be a local; the selected name is a field or method
+			ast.Inspect(se.X, func(m ast.Node) bool {
+				if id, ok := m.(*ast.Ident); ok {
+					if t := localVarType(pkg, id); t != "" {
+						repl[id] = t
+					}
+				}
+				return true
+			})
+			return false
+		}
+		if id, ok := n.(*ast.Ident); ok {
+			if t := localVarType(pkg, id); t != "" {
+				repl[id] = t
+			}
+		}
+		return true
+	})
+	if len(repl) == 0 {
+		return types.ExprString(e)
+	}
+	// print with the replacements: rename the identifiers on a shallow copy of the printed text by position
+	type edit struct {
+		from, to int
+		text     string
+	}
+	src := types.ExprString(e)
+	// ExprString normalises spacing, so positions cannot be used; re-print through a copy of the tree instead
+	saved := map[*ast.Ident]string{}
+	for id, t := range repl {
+		saved[id] = id.Name
+		id.Name = "<" + t + ">"
+	}
+	out := types.ExprString(e)
+	for id, n := range saved {
+		id.Name = n
+	}
+	_ = src
+	return out
+}
+
+func localVarType(pkg *packages.Package, id *ast.Ident) string {
+	obj := pkg.TypesInfo.Uses[id]
+	if obj == nil {
+		obj = pkg.TypesInfo.Defs[id]
+	}
+	v, ok := obj.(*types.Var)
+	if !ok || v.IsField() || v.Pkg() == nil || v.Parent() == nil || v.Parent() == v.Pkg().Scope() || v.Parent() == types.Universe {
+		return ""
+	}
+	return typeStr(v.Type())
+}
+
+// canonVal describes a value by its provenance.
+func canonVal(v ssa.Value, depth int) string {
+	if v == nil {
+		return ""
+	}
+	if depth > 4 {
+		return "<" + typeStr(v.Type()) + ">"
+	}
+	switch x := v.(type) {
+	case *ssa.Const:
+		if x.Value == nil {
+			return "nil"
+		}
+		return x.Value.ExactString()
+	case *ssa.Parameter:
+		return "param<" + typeStr(x.Type()) + ">"
+	case *ssa.FreeVar:
+		return "captured<" + typeStr(x.Type()) + ">"
+	case *ssa.Convert:
+		return canonVal(x.X, depth+1)
+	case *ssa.ChangeType:
+		return canonVal(x.X, depth+1)
+	case *ssa.BinOp:
+		return canonVal(x.X, depth+1) + " " + x.Op.String() + " " + canonVal(x.Y, depth+1)
+	case *ssa.Phi:
+		return "phi<" + typeStr(x.Type()) + ">"
+	case *ssa.Slice:
+		return canonVal(x.X, depth+1) + "[..]"
+	case *ssa.Extract:
+		if call, ok := x.Tuple.(*ssa.Call); ok {
+			return canonCallee(call) + "#" + fmt.Sprint(x.Index)
+		}
+		return "part<" + typeStr(x.Type()) + ">"
+	case *ssa.Call:
+		if bi, ok := x.Call.Value.(*ssa.Builtin); ok && len(x.Call.Args) > 0 {
+			return bi.Name() + "(" + canonVal(x.Call.Args[0], depth+1) + ")"
+		}
+		return canonCallee(x) + "()"
+	case *ssa.UnOp:
+		if x.Op == token.MUL {
+			if fa, ok := x.X.(*ssa.FieldAddr); ok {
+				return fieldAddrName(fa)
+			}
+			if _, ok := x.X.(*ssa.IndexAddr); ok {
+				return "elem<" + typeStr(x.Type()) + ">"
+			}
+			if al, ok := x.X.(*ssa.Alloc); ok {
+				return "local<" + typeStr(al.Type().(*types.Pointer).Elem()) + ">"
+			}
+		}
+		return x.Op.String() + canonVal(x.X, depth+1)
+	case *ssa.Field:
+		n, _ := fieldName(x.X.Type(), x.Field)
+		if nm := namedOf(x.X.Type()); nm != nil {
+			return nm.Obj().Name() + "." + n
+		}
+		return "." + n
+	case *ssa.Lookup:
+		return "elem<" + typeStr(x.Type()) + ">"
+	}
+	return "<" + typeStr(v.Type()) + ">"
+}
+
+func canonCallee(call *ssa.Call) string {
+	if f := staticCallee(&call.Call); f != nil {
+		if inModule(f) {
+			return FuncName(f)
+		}
+		return calleeFullName(&call.Call)
+	}
+	if call.Call.IsInvoke() {
+		return "." + call.Call.Method.Name()
+	}
+	return "call<" + typeStr(call.Type()) + ">"
+}
+
+// offsetIntoParam: the index of the string/slice parameter such that every value the function returns is between 0 and
+// the length of that parameter (byte index of a range loop over it, its length, the constant 0); -1 if there is none.
+func offsetIntoParam(g *ssa.Function) int {
+	if g.Signature.Results().Len() != 1 {
+		return -1
+	}
+	for k, prm := range g.Params {
+		switch prm.Type().Underlying().(type) {
+		case *types.Basic, *types.Slice:
+		default:
+			continue
+		}
+		if b, ok := prm.Type().Underlying().(*types.Basic); ok && b.Info()&types.IsString == 0 {
+			continue
+		}
+		all, n := true, 0
+		var within func(v ssa.Value, seen map[ssa.Value]bool) bool
+		within = func(v ssa.Value, seen map[ssa.Value]bool) bool {
+			if seen[v] {
+				return true
+			}
+			seen[v] = true
+			switch x := v.(type) {
+			case *ssa.Const:
+				c, ok := constInt(x)
+				return ok && c == 0
+			case *ssa.Call:
+				return isLenOf(x, prm)
+			case *ssa.Extract:
+				if nx, ok := x.Tuple.(*ssa.Next); ok && nx.IsString && x.Index == 1 {
+					if rg, ok := nx.Iter.(*ssa.Range); ok && rg.X == ssa.Value(prm) {
+						return true
+					}
+				}
+			case *ssa.Phi:
+				for _, e := range x.Edges {
+					if !within(e, seen) {
+						return false
+					}
+				}
+				return true
+			}
+			return false
+		}
+		for _, b := range g.Blocks {
+			if ret, ok := b.Instrs[len(b.Instrs)-1].(*ssa.Return); ok {
+				n++
+				if !within(ret.Results[0], map[ssa.Value]bool{}) {
+					all = false
+				}
+			}
+		}
+		if all && n > 0 {
+			return k
+		}
+	}
+	return -1
 }
